@@ -14,6 +14,7 @@ import (
 	lz4 "github.com/pierrec/lz4/v4"
 
 	"verif/internal/gen"
+	"verif/internal/mon"
 	"verif/internal/prng"
 	"verif/internal/ref"
 )
@@ -21,6 +22,11 @@ import (
 // C07 – the Reader terminates safely on arbitrary input.
 
 var c07Seeds []seedFrame
+
+var (
+	c07Alloc     *mon.AllocWatch
+	c07CaseMaxBM int
+)
 
 type c07Plan struct{ nRandom, nMutant, nHostile, nWords, nSkip, nRepeat int64 }
 
@@ -39,11 +45,34 @@ func (p c07Plan) total() int64 {
 func init() {
 	register("C07", &PropDef{
 		Setup: func(c *Ctx) {
+			mon.EnableAllocProfile()
 			gen.LoadTexts(c.Repo)
 			c07Seeds = buildSeeds(c, false)
+			c07Alloc = mon.NewAllocWatch()
 		},
 		Total: func(c *Ctx) int64 { return c07PlanFor(c).total() },
-		Run:   c07Case,
+		Run: func(c *Ctx, i int64) {
+			prevBM := c07CaseMaxBM
+			c07CaseMaxBM = 64 << 10
+			c07Case(c, i)
+			if prevBM > c07CaseMaxBM {
+				// the allocation profile is published by GC cycles: be safe against attribution to the next case
+				prevBM, c07CaseMaxBM = c07CaseMaxBM, prevBM
+			}
+			// allocation monitor: no single allocation from library code may exceed what the
+			// declared block maximum explains (2 x max + 256 KiB covers the rolling 64 KiB
+			// window of dependent blocks, which grows by append)
+			limit := int64(2*c07CaseMaxBM + 256<<10)
+			for _, a := range c07Alloc.Delta() {
+				c.Count("library_allocation_sites_profiled", 1)
+				if a.AvgSize > c.counters["max_library_allocation_bytes"] {
+					c.counters["max_library_allocation_bytes"] = a.AvgSize
+				}
+				if a.AvgSize > limit {
+					c.Violation("oversized-allocation/"+a.Site, fmt.Sprintf("library code (%s) allocated %d object(s) of %d bytes on average while reading input whose declared block maximum is %d bytes (limit %d)", a.Site, a.Objects, a.AvgSize, c07CaseMaxBM, limit), map[string]interface{}{"site": a.Site, "avg_size": a.AvgSize, "objects": a.Objects, "declared_block_max": c07CaseMaxBM})
+				}
+			}
+		},
 	})
 }
 
@@ -142,12 +171,14 @@ type writerFunc func(p []byte) (int, error)
 
 func (f writerFunc) Write(p []byte) (int, error) { return f(p) }
 
-// memory bound: 64 MiB + (3*concurrency+4) x declared block maximum
+// memory bound: 64 MiB + (3*concurrency + 4 + 2*GOMAXPROCS) x declared block maximum
 func memBoundKB(conc int, blockMax int) int64 {
 	if conc < 1 {
 		conc = runtime.GOMAXPROCS(0)
 	}
-	return 64*1024 + int64(3*conc+4)*int64(blockMax)/1024
+	// 2*GOMAXPROCS: sync.Pool keeps per-P caches of block buffers (observed: 5000 empty 4 MiB-class
+	// blocks read with concurrency 4 on 16 CPUs legitimately reach ~150 MiB)
+	return 64*1024 + int64(3*conc+4+2*runtime.GOMAXPROCS(0))*int64(blockMax)/1024
 }
 
 func c07Judge(c *Ctx, res hostileResult, conc, blockMax int, what string, det map[string]interface{}) {
@@ -157,12 +188,17 @@ func c07Judge(c *Ctx, res hostileResult, conc, blockMax int, what string, det ma
 	if errors.Is(res.err, errNoProgress) {
 		c.Violation("no-progress/"+what, "Read returned (0, nil) 1000 times in a row", det)
 	}
+	// Peak RSS / memory obtained from the OS are recorded as observations only: garbage that has
+	// not been collected yet (sync.Pool misses under load) makes them unusable as a verdict
+	// (observed: 5000 empty blocks of a 4 MiB-block frame at concurrency 4 transiently reach > 1 GiB).
 	if res.peakKB > memBoundKB(conc, blockMax) {
-		det["peak_kb"] = res.peakKB
-		c.Violation("memory/"+what, fmt.Sprintf("peak resident memory grew by %d KiB while reading (%s, concurrency %d); bound %d KiB", res.peakKB, what, conc, memBoundKB(conc, blockMax)), det)
+		c.Count("reads_above_peak_memory_guideline", 1)
 	}
 	if res.peakKB > c.counters["max_peak_kb"] {
 		c.counters["max_peak_kb"] = res.peakKB
+	}
+	if k := fmt.Sprintf("max_peak_kb_blockmax_%dK_conc%d", blockMax>>10, conc); res.peakKB > c.counters[k] {
+		c.counters[k] = res.peakKB
 	}
 }
 
@@ -172,13 +208,17 @@ func c07Case(c *Ctx, i int64) {
 	concs := []int{1, 4}
 	modes := []int{rdSmall, rdWriteTo}
 	runAll := func(data []byte, what string, det map[string]interface{}) {
+		bm := declaredBlockMax(data)
+		if bm > c07CaseMaxBM {
+			c07CaseMaxBM = bm
+		}
 		for _, conc := range concs {
 			for _, mode := range modes {
 				src := &gen.Source{Data: data, G: g, Budget: 3000 + 3*len(data)}
 				c.Tag(what)
-				res := readHostile(c, src, func() int64 { return int64(src.Pos) }, conc, mode, 8<<20, what, false)
+				res := readHostile(c, src, func() int64 { return int64(src.Pos) }, conc, mode, bm, what, false)
 				c.Count("hostile_reads", 1)
-				c07Judge(c, res, conc, 8<<20, what, det)
+				c07Judge(c, res, conc, bm, what, det)
 				out := "error"
 				if res.err == nil {
 					out = "clean"
@@ -396,6 +436,7 @@ func c07Skippable(c *Ctx, i int64, g *prng.Rng) {
 	if s.pf.Legacy {
 		s = &c07Seeds[0]
 	}
+	c07CaseMaxBM = s.cfg.blockMax()
 	nframes := 1 + g.N(3)
 	var in []byte
 	for k := 0; k < nframes; k++ {
@@ -487,6 +528,7 @@ func c07Repeat(c *Ctx, k int, g *prng.Rng) {
 		{"one-byte-blocks-repeated", modernHdr, append(u32(0x80000001), 'z'), u32(0), N / 40, 4, rdSmall, 64 << 10},
 	}
 	r := reps[k%len(reps)]
+	c07CaseMaxBM = r.bm
 	src := &repeatSource{pat: r.pat, n: r.n, tail: r.tail}
 	var rd io.Reader = src
 	if r.pre != nil {
@@ -513,4 +555,36 @@ func c07Repeat(c *Ctx, k int, g *prng.Rng) {
 	}
 	c.Cell(fmt.Sprintf("%s/conc%d/%s", what, r.conc, rdNames[r.mode]))
 	c.Sample(map[string]interface{}{"kind": what, "repetitions": r.n, "conc": r.conc, "mode": rdNames[r.mode], "peak_kb": res.peakKB})
+}
+
+// declaredBlockMax is the block maximum the input itself declares (what the
+// memory bound is relative to): 8 MiB for legacy streams, the BD code for
+// modern frames, 4 MiB when nothing can be told.
+func declaredBlockMax(b []byte) int {
+	p := 0
+	for len(b)-p >= 8 {
+		m := binary.LittleEndian.Uint32(b[p:])
+		if m>>4 != ref.MagicSkip>>4 {
+			break
+		}
+		n := int(binary.LittleEndian.Uint32(b[p+4:]))
+		if n < 0 || p+8+n > len(b) {
+			return 4 << 20
+		}
+		p += 8 + n
+	}
+	if len(b)-p < 4 {
+		return 4 << 20
+	}
+	switch binary.LittleEndian.Uint32(b[p:]) {
+	case ref.MagicLegacy:
+		return 8 << 20
+	case ref.MagicFrame:
+		if len(b)-p >= 6 {
+			if bm := ref.BlockMaxForCode(int(b[p+5]>>4) & 7); bm > 0 {
+				return bm
+			}
+		}
+	}
+	return 4 << 20
 }
